@@ -95,7 +95,7 @@ PRECOND = {
     'alloc::slice::<impl [T]>::sort': 'sort', 'core::slice::<impl [T]>::chunks': 'chunks',
     'core::slice::<impl [T]>::copy_from_slice': 'len-eq',
 }
-PANIC_CALLS = ('core::panicking::', 'std::rt::begin_panic', 'core::option::unwrap_failed', 'core::result::unwrap_failed',
+PANIC_CALLS = ('core::panicking::', 'std::rt::begin_panic', 'std::panicking::begin_panic', 'core::option::unwrap_failed', 'core::result::unwrap_failed',
                'core::option::expect_failed', 'core::slice::index::slice_', 'core::str::slice_error_fail')
 
 LEN_LIKE_CALLS = ('::len', 'bitstr::Bitstr::start', 'bitstr::Bitstr::end', 'state::State::code_origin', 'state::State::ip',
@@ -1619,8 +1619,64 @@ def _line_bounds_are_boundaries(fx):
     return ok
 
 
+def _function_entries_stay_functions(fx):
+    """`;` looks up the dictionary entry its `:` made (index kept in the pending flow) and panics if it is not a Function any
+    more.  Entries are appended, cut off at the end, removed as a whole - and overwritten in place in a few words.  None of
+    those may turn a Function into something else: an in-place write of an `Entry::X` value (X not Function) is reached only
+    over the arm of a switch on that very entry that found it to be an X already (`const` updates a constant, nothing else)."""
+    from .. import awrite as _aw
+    from ..pathq import _reach_without_edge
+    tracked = _aw.state_tracked(fx)
+    ent = fx.adts.get('state::Entry') or {}
+    vnames = [v['name'] for v in ent.get('variants', [])]
+    if 'Function' not in vnames:
+        return False
+    n = 0
+    for fn in sorted(fx.fns):
+        f0 = fx.fns[fn]
+        if not any(w['field'][0] == 'dict' and w.get('elem') and w['how'].startswith('assign') for w in _aw.field_writes(fx, f0, tracked)):
+            continue
+        f = inline.thread_fn(f0)
+        for w in _aw.field_writes(fx, f, tracked):
+            if not (w['field'][0] == 'dict' and w.get('elem') and w['how'].startswith('assign')) or w.get('stmt') is None:
+                continue
+            names = [x.get('f') if isinstance(x, dict) else x for x in w['stmt']['lhs']['p']]
+            if names[-1:] != ['entry'] and names[-1:] != ['*']:
+                continue          # a field inside the entry (len, immediate flag): the kind stays
+            e = f.expr_of_rvalue(w['stmt']['rv'], 0, frozenset())
+            aggs = [x for x in expr_walk(e) if isinstance(x, tuple) and x[0] == 'agg' and x[1] == 'state::Entry']
+            if names[-1:] == ['*'] and not aggs:
+                continue          # a write through a reference to a field (`*len = ..`)
+            n += 1
+            kinds = {x[2] for x in aggs}
+            if kinds == {'Function'}:
+                continue
+            if not aggs or len(kinds) != 1:
+                return False      # an entry of unknown kind is stored over another
+            kind = list(kinds)[0]
+            vi = vnames.index(kind)
+            found = False
+            for b2 in f.reachable_blocks():
+                t = f.blocks[b2]['term']
+                if t['k'] != 'switch':
+                    continue
+                d = f.expr_of_operand(t['discr'])
+                if not (isinstance(d, tuple) and d[0] == 'discr' and d[2] == 'state::Entry' and 'dict' in expr_str(d[1], -20)):
+                    continue
+                listed = dict((v, tg) for v, tg in t['targets'])
+                tgt = listed.get(vi)
+                if tgt is None:
+                    continue
+                if not _reach_without_edge(f, 0, w['bb'], b2, tgt):
+                    found = True
+            if not found:
+                return False
+    return n >= 1
+
+
+
 PREDICATES = {'@next_nonws-filters': _next_nonws_filters, '@line-bounds-are-boundaries': _line_bounds_are_boundaries, '@to_uint-callers-bound-len': _to_uint_callers_bound_len,
-              '@hex-prefix-is-ascii': _hex_prefix_is_ascii}
+              '@hex-prefix-is-ascii': _hex_prefix_is_ascii, '@function-entries-stay-functions': _function_entries_stay_functions}
 
 
 def _calls_dominating(f, bb):
